@@ -24,7 +24,7 @@
 (*        "v" (other vanishing markup), "pb" (paragraph break, forced),      *)
 (*        "x" (opaque: no claim about the separator here)                    *)
 (*   Final turns the layout entries into "s" items (ch = separator class).   *)
-EXTENDS Chars, Naturals, Sequences, FiniteSets, TLC
+EXTENDS Maths
 
 It(t, ch, lo, hi, n) == [t |-> t, ch |-> ch, lo |-> lo, hi |-> hi, n |-> n]
 Lay(t) == It(t, "", 0, 0, 0)
@@ -35,15 +35,16 @@ Str(s) == s   \* documentation only: a TLA+ tuple of one-character strings
 (* The catalogue.  kind: how Step treats the symbol.                       *)
 (***************************************************************************)
 Visible == {"a", "b", "c", ".", "!", ","}          \* body text
-\* hidden vocabulary (must never reach the output): q (comments, skipped
-\* text), k (keys, labels, file names), z (option lists), y (maths source)
+\* hidden vocabulary (must never reach the output): j (comments, skipped
+\* text), k (keys, labels, file names), z (option lists), y and x (maths source);
+\* none of these letters occurs in text the filter generates (operator words, proof titles)
 
 Conc(s) ==
   CASE s \in Visible -> <<s>>
     [] s = "sp"   -> <<" ">>
     [] s = "nl"   -> <<NL>>
     [] s = "tab"  -> <<TAB>>
-    [] s = "cm"   -> <<"%", "q", NL>>
+    [] s = "cm"   -> <<"%", "j", NL>>
     [] s = "lb"   -> <<BS,"l","a","b","e","l","{","k","}">>
     [] s = "ix"   -> <<BS,"i","n","d","e","x","{","k","}">>
     [] s = "uk"   -> <<BS,"f","o","o">>
@@ -53,7 +54,7 @@ Conc(s) ==
     [] s = "add"  -> <<BS,"L","T","a","d","d","{">>               \* \LTadd{ : argument is kept
     [] s = "fbx"  -> <<BS,"f","r","a","m","e","b","o","x","[","z","]","{">>  \* \framebox[z]{ : #3... kept
     [] s = "tc"   -> <<BS,"t","e","x","t","c","o","l","o","r","{","k","}","{">>  \* xcolor
-    [] s = "skp"  -> <<BS,"L","T","s","k","i","p","{","q","}">>   \* \LTskip{q}
+    [] s = "skp"  -> <<BS,"L","T","s","k","i","p","{","j","}">>   \* \LTskip{j}
     [] s = "fn"   -> <<BS,"f","o","o","t","n","o","t","e","{">>
     [] s = "cap"  -> <<BS,"c","a","p","t","i","o","n","{">>
     [] s = "sec"  -> <<BS,"s","e","c","t","i","o","n","{">>
@@ -78,8 +79,8 @@ Conc(s) ==
     [] s = "rbr"  -> <<BS,"}">>
     [] s = "skb"  -> <<"%","%","%"," ","L","T","-","S","K","I","P","-","B","E","G","I","N",NL>>
     [] s = "ske"  -> <<"%","%","%"," ","L","T","-","S","K","I","P","-","E","N","D",NL>>
-    [] s = "fnq"  -> <<BS,"f","o","o","t","n","o","t","e","{","q","}">>   \* a footnote inside removed / skipped material
-    [] s = "q"    -> <<"q">>                                        \* hidden letter (inside skipped regions)
+    [] s = "fnq"  -> <<BS,"f","o","o","t","n","o","t","e","{","j","}">>   \* a footnote inside removed / skipped material
+    [] s = "q"    -> <<"j">>                                        \* hidden letter (inside skipped regions)
     [] s = "bi"   -> <<BS,"b","e","g","i","n","{","i","t","e","m","i","z","e","}">>
     [] s = "ei"   -> <<BS,"e","n","d","{","i","t","e","m","i","z","e","}">>
     [] s = "be"   -> <<BS,"b","e","g","i","n","{","e","n","u","m","e","r","a","t","e","}">>
@@ -94,6 +95,18 @@ Conc(s) ==
     [] s = "vb"   -> <<BS,"v","e","r","b","|","a","%","|">>          \* \verb|a%|
     [] s = "vrb"  -> <<BS,"b","e","g","i","n","{","v","e","r","b","a","t","i","m","}",NL,"a","%",NL,BS,"e","n","d","{","v","e","r","b","a","t","i","m","}">>
     [] s = "vrb2" -> <<BS,"b","e","g","i","n"," ","{","v","e","r","b","a","t","i","m","}","a","%",BS,"e","n","d","{","v","e","r","b","a","t","i","m","}">>
+    \* maths (C10, C11)
+    [] s = "mo"  -> <<"$">> [] s = "mc" -> <<"$">> [] s = "mo2" -> <<BS,"(">> [] s = "mc2" -> <<BS,")">>
+    [] s = "my"  -> <<"y">> [] s = "mw" -> <<"x">> [] s = "mpl" -> <<"+">> [] s = "meq" -> <<"=">>
+    [] s = "mal" -> <<BS,"a","l","p","h","a">> [] s = "mfr" -> <<BS,"f","r","a","c","{","y","}","{","x","}">>
+    [] s = "msb" -> <<"_","{","x","}">> [] s = "msp" -> <<BS,",">> [] s = "mti" -> <<"~">>
+    [] s = "mdt" -> <<".">> [] s = "mcm" -> <<",">> [] s = "mob" -> <<"{">> [] s = "mcb" -> <<"}">>
+    [] s = "mtx" -> <<BS,"t","e","x","t","{"," ","f","o","r"," ","}">>
+    [] s = "mlb" -> <<BS,"l","a","b","e","l","{","k","}">> [] s = "mnn" -> <<BS,"n","o","n","u","m","b","e","r">>
+    [] s = "mam" -> <<"&">> [] s = "mnl" -> <<BS,BS>>
+    [] s = "ba"  -> <<BS,"b","e","g","i","n","{","a","l","i","g","n","}">> [] s = "ea" -> <<BS,"e","n","d","{","a","l","i","g","n","}">>
+    [] s = "bq"  -> <<BS,"b","e","g","i","n","{","e","q","u","a","t","i","o","n","}">> [] s = "eq" -> <<BS,"e","n","d","{","e","q","u","a","t","i","o","n","}">>
+    [] s = "bd"  -> <<BS,"[">> [] s = "ed" -> <<BS,"]">> [] s = "bdd" -> <<"$","$">> [] s = "edd" -> <<"$","$">>
     \* user definitions (C09) and their uses
     [] s = "dA"  -> <<BS,"n","e","w","c","o","m","m","a","n","d","{",BS,"m","a","}","{","m","n","}">>
     [] s = "dB"  -> <<BS,"n","e","w","c","o","m","m","a","n","d","{",BS,"m","b","}","[","1","]","{","m","#","1","n","}">>
@@ -117,7 +130,7 @@ Conc(s) ==
     [] s = "cto" -> <<BS,"c","i","t","e","[">>
     [] s = "ctc" -> <<"]","{","k","}">>
     [] s = "rbk" -> <<"]">>
-    [] s = "up"  -> <<BS,"u","s","e","p","a","c","k","a","g","e","{","x","c","o","l","o","r","}">>
+    [] s = "up"  -> <<BS,"u","s","e","p","a","c","k","a","g","e","{","g","r","a","p","h","i","c","x","}">>   \* a package that is not preloaded
     [] OTHER -> <<"?", "?">>
 
 ReplChar(s) ==
@@ -132,6 +145,12 @@ OpenKind(s) ==     \* symbols that open a braced argument / group
     [] s = "fn" -> "fn" [] s = "cap" -> "fn" [] s = "sec" -> "sec" [] s = "sub" -> "sec"
     [] s \in {"uB","uC","uD","uE","uF","uG"} -> "marg" [] s = "uCo" -> "mopt" [] s = "cto" -> "copt"
 OpenSyms == {"ob","add","fbx","tc","fn","cap","sec","sub","uB","uC","uCo","uD","uE","uF","uG","cto"}
+MathOpen == {"mo", "mo2"}
+DispOpen == {"ba", "bq", "bd", "bdd"}
+MathBody == {"my","mw","mpl","meq","mal","mfr","msb","msp","mti","mdt","mcm","mob","mcb"}
+DispBody == MathBody \cup {"mtx","mlb","mnn","mam","mnl"}
+CloserOf(o) == CASE o = "mo" -> "mc" [] o = "mo2" -> "mc2" [] o = "ba" -> "ea" [] o = "bq" -> "eq" [] o = "bd" -> "ed" [] o = "bdd" -> "edd"
+MathSyms == MathOpen \cup DispOpen \cup DispBody \cup {"mc","mc2","ea","eq","ed","edd"}
 DefSyms == {"dA","dB","dC","dD","dE","dF","dG","rB"}
 UseSyms == {"uA","uB","uBt","uC","uCo","uD","uE","uF","uG"}
 MacroOf(s) == CASE s \in {"dA","uA"} -> "ma" [] s \in {"dB","rB","uB","uBt"} -> "mb" [] s \in {"dC","uC","uCo"} -> "mc"
@@ -152,7 +171,7 @@ EnvOf(s) == CASE s \in {"bi","ei"} -> "itemize" [] s \in {"be","ee"} -> "enumera
               [] s \in {"bu","eu"} -> "unk" [] s \in {"bl","el"} -> "lstlisting" [] s \in {"bm","em"} -> "minipage"
 
 AllSyms == Visible \cup ReplSyms \cup OpenSyms \cup BeginSyms \cup EndSyms \cup
-   {"sp","nl","tab","cm","lb","ix","uk","uk2","cb","skp","par","im","imp","ref","cite","skb","ske","q","fnq","it","vb","vrb","vrb2","ocb","ctc","rbk","up","uA","uBt"} \cup DefSyms
+   {"sp","nl","tab","cm","lb","ix","uk","uk2","cb","skp","par","im","imp","ref","cite","skb","ske","q","fnq","it","vb","vrb","vrb2","ocb","ctc","rbk","up","uA","uBt"} \cup DefSyms \cup MathSyms
 
 (***************************************************************************)
 (* Reference state                                                         *)
@@ -162,17 +181,18 @@ Frame(k, flow, start) == [k |-> k, flow |-> flow, start |-> start, has |-> FALSE
 
 St0 == [src |-> <<>>, ctx |-> <<>>, flows |-> << <<>> >>, spans |-> << <<0,0>> >>,
         unk |-> <<>>, nfml |-> 0, cw |-> FALSE, vis |-> FALSE, feat |-> {},
-        defs |-> [m \in MacroNames |-> "none"]]
+        ls |-> "", defs |-> [m \in MacroNames |-> "none"], fml |-> <<>>, eqs |-> <<>>, didx |-> 0]
 
 Top(st) == st.ctx[Len(st.ctx)]
 CurFlow(st) == IF st.ctx = <<>> THEN 1 ELSE Top(st).flow
 InKind(st, k) == \E i \in 1..Len(st.ctx) : st.ctx[i].k = k
 InSkip(st) == st.ctx # <<>> /\ Top(st).k \in {"skip", "rm"}
+InMath(st) == st.ctx # <<>> /\ Top(st).k \in {"math", "deq"}
 Pos0(st) == Len(st.src)          \* 0-based offset of the next character = 1-based position of the last one
 
 Emit(st, items) == [st EXCEPT !.flows[CurFlow(st)] = @ \o items]
-CwSyms == {"uk", "uk2", "par", "it", "uA"}        \* symbols whose text ends with a control word
-AddSrc(st, s) == [st EXCEPT !.src = @ \o Conc(s), !.cw = s \in CwSyms, !.vis = s \in Visible]
+CwSyms == {"uk", "uk2", "par", "it", "uA", "mal", "mnn"}        \* symbols whose text ends with a control word
+AddSrc(st, s) == [st EXCEPT !.src = @ \o Conc(s), !.cw = s \in CwSyms, !.vis = s \in Visible, !.ls = s]
 Feat(st, f) == [st EXCEPT !.feat = @ \cup {f}]
 \* text seen inside the innermost heading (for the dot rule) and in every enclosing frame
 \* (text inside a footnote belongs to the footnote's flow, not to a heading around it)
@@ -185,17 +205,38 @@ AddUnk(st, name) == IF \E i \in 1..Len(st.unk) : st.unk[i] = name THEN st ELSE [
 (***************************************************************************)
 (* Well-formedness: which symbol may follow                                *)
 (***************************************************************************)
+\* the current row of a displayed equation contains something that is rendered
+RowFilled(body) == LET rows == SplitAt(body, "mnl", <<>>) IN RendersText(rows[Len(rows)])
+AllowedMath(st, s) ==
+  LET fr == Top(st)
+      body == fr.args
+      last == IF body = <<>> THEN "" ELSE body[Len(body)].s
+      closer == CloserOf(fr.nm) IN
+  IF s = closer THEN fr.cnt = 0 /\ (fr.k = "math" => ~InlineShape(body).onlyspace) /\ (fr.k = "deq" => RowFilled(body))
+  ELSE /\ s \in (IF fr.k = "math" THEN MathBody ELSE DispBody)
+       /\ (s = "mcb" => fr.cnt > 0)
+       /\ (s = "mob" => fr.cnt < 1 /\ last \notin {"msb"})
+       /\ (fr.k = "math" /\ IsMPunct(last) => FALSE)            \* inline: punctuation only as the last character
+       /\ (s \in {"mam", "mnl"} => fr.nm = "ba" /\ fr.cnt = 0)
+       /\ (s = "mnl" => RowFilled(body))            \* an empty row is a blank line for the line-removal pass (C05's matter)
+       /\ (s = "mtx" => fr.cnt = 0)
 AllowedCtx(st, s) ==
-  IF InSkip(st) THEN
+  IF InMath(st) THEN AllowedMath(st, s)
+  ELSE IF InSkip(st) THEN
 
        ((Top(st).k = "skip" /\ s \in {"q","sp","nl","ske","uk","ob","cb","im","fnq"}) \/
         (Top(st).k = "rm" /\ s \in {"q","sp","nl","el","fnq"}))
   ELSE
-  /\ s \notin {"ske","el","q","fnq"}
+  /\ s \notin {"ske","el","q","fnq"} \cup DispBody \cup {"mc","mc2","ea","eq","ed","edd"}
+  /\ s \in DispOpen => ~InKind(st, "sec") /\ ~InKind(st, "arg") /\ ~InKind(st, "fn") /\ ~InKind(st, "marg")
+  /\ s \in MathOpen => ~InKind(st, "marg") /\ ~InKind(st, "copt") /\ ~InKind(st, "mopt")
   \* a tie or thin space on an otherwise blank line is white space for the line-removal pass
   \* (excluded from C02/C06, see the statement of C06): only directly after a visible character
   /\ s \in {"tie","thin"} => st.vis
   /\ s = "cb" => st.ctx # <<>> /\ Top(st).k \in {"grp","arg","fn","sec","marg"}
+  \* (the full stop added to a heading is attached to the last token of the heading; if that is the closing $ of a
+  \*  formula it maps into the formula - legitimate, but it would blur C10's "text of the formula")
+  /\ (s = "cb" /\ st.ctx # <<>> /\ Top(st).k = "sec") => st.ls \notin {"mc", "mc2"}
   /\ s = "ocb" => st.ctx # <<>> /\ Top(st).k = "mopt"
   /\ s = "ctc" => st.ctx # <<>> /\ Top(st).k = "copt"
   /\ s = "rbk" => Len(st.ctx) >= 2 /\ Top(st).k = "grp" /\ st.ctx[Len(st.ctx)-1].k \in {"copt", "mopt"}
@@ -250,7 +291,24 @@ Step(st, s) ==
       s1 == AddSrc(st, s)
       p1 == Pos0(s1)                       \* 1-based position of its last character
   IN
-  IF InSkip(st) THEN
+  IF InMath(st) THEN
+     LET fr == Top(st) IN
+     IF s # CloserOf(fr.nm) THEN
+        [s1 EXCEPT !.ctx[Len(st.ctx)].args = Append(@, [s |-> s, p |-> p0]),
+                   !.ctx[Len(st.ctx)].cnt = IF s = "mob" THEN @ + 1 ELSE IF s = "mcb" THEN @ - 1 ELSE @]
+     ELSE LET s2 == [s1 EXCEPT !.ctx = SubSeq(@, 1, Len(@)-1)] IN
+       IF fr.k = "math" THEN
+          LET sh == InlineShape(fr.args)
+              cls == IF sh.punct = "." THEN "phi." ELSE IF sh.punct = "," THEN "phi," ELSE "phi"
+              s3 == IF InKind(s2, "sec") THEN Feat(s2, "maths-in-heading") ELSE s2 IN
+          NoteText(Emit([s3 EXCEPT !.fml = Append(@, [lo |-> fr.start+1, hi |-> p1, sp1 |-> sh.sp1, sp2 |-> sh.sp2, punct |-> sh.punct])],
+                        <<Lay("x"), It("g", cls, fr.start+1, p1, 1), Lay("x")>>), IF sh.punct = "" THEN "P" ELSE sh.punct)
+       ELSE
+          LET r == RefEq(fr.args, st.didx)
+              q == RefEqSimple(fr.args, st.didx) IN
+          Emit([s2 EXCEPT !.didx = r.idx, !.eqs = Append(@, [lo |-> fr.start+1, hi |-> p1, pieces |-> r.pieces, simple |-> q.pieces])],
+               <<Lay("x"), It("g", "phd", fr.start+1, p1, 0), Lay("x")>>)
+  ELSE IF InSkip(st) THEN
      ( IF s = "fnq" THEN Feat(s1, IF Top(st).k = "rm" THEN "detached-in-removed-env" ELSE "detached-in-skipped")
        ELSE IF (Top(st).k = "skip" /\ s = "ske") \/ (Top(st).k = "rm" /\ s = "el")
        THEN LET s2 == [s1 EXCEPT !.ctx = SubSeq(@, 1, Len(@)-1)] IN
@@ -306,6 +364,8 @@ Step(st, s) ==
              s2 == [s1 EXCEPT !.ctx = SubSeq(@, 1, Len(@)-1), !.flows[fr.flow] = SubSeq(@, 1, fr.mark)] IN
          NoteText(Emit(s2, <<Lay("x"), It("f", "[", fr.start+1, p1, 0), It("f", "0", fr.start+1, p1, 0), It("f", ",", fr.start+1, p1, 0),
                           It("g", "ws", fr.start+1, p1, 0), Lay("x")>> \o Opaque(seg) \o <<It("f", "]", fr.start+1, p1, 0), Lay("x")>>), "]")
+    [] s \in MathOpen -> [s1 EXCEPT !.ctx = Append(@, [Frame("math", CurFlow(st), p0) EXCEPT !.nm = s])]
+    [] s \in DispOpen -> [s1 EXCEPT !.ctx = Append(@, [Frame("deq", CurFlow(st), p0) EXCEPT !.nm = s])]
     [] s = "skb" -> [s1 EXCEPT !.ctx = Append(@, Frame("skip", CurFlow(st), p0))]
     [] s \in OpenSyms ->
          LET k == OpenKind(s) IN
@@ -447,7 +507,7 @@ Detached(flows, spans, i) ==
 Final(st) == [src |-> st.src,
               items |-> Seps(st.flows[1], Z0) \o Detached(st.flows, st.spans, 2),
               unk |-> st.unk,
-              nflows |-> Len(st.flows), feat |-> st.feat]
+              nflows |-> Len(st.flows), feat |-> st.feat, fml |-> st.fml, eqs |-> st.eqs]
 
 Ref(doc) == Final(Run(St0, doc))
 RECURSIVE ConcAll(_)
